@@ -104,7 +104,7 @@ theorem SRel.bindLocalsPerm {σ σ' : State N} (h : SRel Q cx β σ σ') {D : Li
       LocOK cx β' D (Sem.bindLocals A ws l σ).1 (Sem.bindLocals B ws' l' σ').1 := by
   refine ⟨extPerm β A B σ.cells.length σ'.cells.length, fun _ _ hab => .inl hab, ?_, ?_⟩
   · rw [bindLocals_state, bindLocals_state]
-    refine ⟨h.globals, h.tables, h.trace, h.ginv, ?_, ?_, ?_, Forall2.imp (fun _ _ hc => hc.mono fun _ _ hab => .inl hab) h.closures⟩
+    refine ⟨h.globals, h.tables, h.trace, h.ginv, h.finv, ?_, ?_, ?_, Forall2.imp (fun _ _ hc => hc.mono fun _ _ hab => .inl hab) h.closures⟩
     · intro a b a' b' h1 h2
       rcases h1 with h1 | ⟨n, i, j, hi, hj, rfl, rfl⟩ <;> rcases h2 with h2 | ⟨n', i', j', hi', hj', rfl, rfl⟩
       · exact h.inj h1 h2
@@ -197,6 +197,8 @@ theorem permLocal_sound {D : List DName} {kind kind' : LocalKind} {ns ns' : List
     simp only [] at h2
     rw [h2]
     exact ⟨rfl, β1, hle, hs1⟩
+  · exact RRel.timeout_left h1 _
+  · exact RRel.timeout_left h1 _
   · simp only [] at h2
     rw [h2]
     trivial
